@@ -532,6 +532,9 @@ func c18Nil(t *vk.T) {
 			}
 			return n
 		})
+		if len(res) != cnt {
+			t.Violation("nilpool|search-result-length", "nil pool Search(%d) returned %d results", cnt, len(res))
+		}
 		for i, v := range res {
 			if v == nil {
 				t.Violation("nilpool|nil-result", "nil pool Search result[%d] nil", i)
@@ -542,6 +545,24 @@ func c18Nil(t *vk.T) {
 		}
 		t.Distinct("nilpool|count=%d", cnt)
 	}
+	// a search for nothing ends at once, whatever f does (here: f never succeeds)
+	calls := int32(0)
+	var res0 []interface{}
+	if callWithWatch(t, "nilpool|search-0", "nil pool Search(0) with a hopeless f", func() {
+		res0 = p.Search(0, func() interface{} {
+			if atomic.AddInt32(&calls, 1) > 2000000 {
+				runtime.Goexit() // the watchdog below has decided long ago; do not spin for ever
+			}
+			return nil
+		})
+	}) {
+		if len(res0) != 0 {
+			t.Violation("nilpool|search-result-length", "nil pool Search(0) returned %d results", len(res0))
+		}
+	} else if atomic.LoadInt32(&calls) > 1000 {
+		t.Violation("nilpool|search-0-never-returns", "nil pool Search(0) keeps calling f (%d calls) instead of returning the empty result", atomic.LoadInt32(&calls))
+	}
+	t.Obs("evaluations", 1)
 	t.Sample(map[string]any{"kind": "nil pool", "counts": "0..5"})
 }
 
